@@ -89,6 +89,7 @@ package activejobstore
 //@ pure cntAct(n int, k string) Int = n <= 0 ? 0 : cntAct(n - 1, k) + ((hasKey(allJobsCachedAt(n - 1)) && keyOf(allJobsCachedAt(n - 1)) == k && job.IsActive(allJobsCachedAt(n - 1))) ? 1 : 0)
 
 //@ func Store.Recover
+//@   locals jobs: []*github.com/furiko-io/furiko/apis/execution/v1alpha1.Job
 //@   params s, ctx
 //@   tags C05
 //@   requires stwf(s)
